@@ -1461,6 +1461,22 @@ def variants(tier: str) -> List[Dict[str, Any]]:
             pw = [i for i, (a, o) in enumerate(adversarial_actions()) if a in ("node-shutdown", "node-startup")]
             add(f"data_manipulation(rich obs, {'/'.join(keys)} = 0, flatten={flat}, adversarial)", c, 1, 30 if quick else 80, ex,
                 p_extra=0.6, script=(None, pw[0], None, None, None, pw[1]) if len(pw) > 1 else ())
+    # an observation component with NO slot at all under flatten_obs (a router observed with num_rules 0, no link, no
+    # component): the nested space then holds an empty Dict
+    def _nodes_comp(c):
+        return next(x for x in _proxy(c)["observation_space"]["options"]["components"] if x["type"] == "nodes")["options"]
+
+    for what in ("num_rules=0", "link_references=[]", "components=[]"):
+        c = dm()
+        if what == "num_rules=0":
+            _nodes_comp(c)["num_rules"] = 0
+        elif what == "link_references=[]":
+            next(x for x in _proxy(c)["observation_space"]["options"]["components"] if x["type"] == "links")["options"]["link_references"] = []
+        else:
+            _proxy(c)["observation_space"]["options"]["components"] = []
+        _proxy(c)["agent_settings"]["flatten_obs"] = True
+        add(f"data_manipulation(flattened, {what})", c, 1, 2)
+        V[-1]["tag"] = "empty-component-flattened"
     # transition tours of spec/Lifecycle.tla: every agent operation at every reachable power x component state; the
     # observation is recorded at the first visits of every abstract state (and at every reset)
     import random as _random
@@ -1543,7 +1559,8 @@ def run_variant(prop: str, v: Dict[str, Any], seed: int, stats: Dict[str, Any]) 
 
     def raised(where, exc, ep, st):
         stats["raised"] = stats.get("raised", 0) + 1
-        traces.append(trace(prop, [raised_event(where, exc)], {"scenario": label, "episode": ep, "step": st, "exc": repr(exc)[:300]},
+        traces.append(trace(prop, [raised_event(where, exc)], {"scenario": label, "episode": ep, "step": st, "exc": repr(exc)[:300],
+                                                               **({"tag": v["tag"]} if v.get("tag") else {})},
                             v["constant"], stim))
 
     try:
@@ -1662,6 +1679,8 @@ def sig_fn(tr, event, stuck):
         sig["clause"] = prim[0]
     if event.get("ev") == "Raised":
         sig["exception"] = str(event.get("exc", "")).split(":")[0]
+    if (tr.get("meta") or {}).get("tag"):
+        sig["variant"] = tr["meta"]["tag"]
     return sig
 
 
@@ -1789,6 +1808,10 @@ def environment_level(prop: str, chk, tier: str, seed: int) -> Dict[str, Any]:
 
     for i, v in enumerate(variants(tier)):
         t0 = _t.time()
+        if v.get("tag") == "empty-component-flattened" and prop != "C02":
+            # (no observation is ever returned by these: nothing to compare with ground truth; C02 reports the raise)
+            per_variant.append({"scenario": v["label"], "episodes": 0, "steps_per_episode": 0, "traces": 0, "rejected": 0, "run_s": 0.0})
+            continue
         traces = run_variant(prop, v, seed * 1009 + i, stats)
         per_variant.append({"scenario": v["label"], "episodes": v["episodes"], "steps_per_episode": v["steps"],
                             "traces": len(traces), "rejected": 0, "run_s": round(_t.time() - t0, 1)})
